@@ -64,6 +64,7 @@ PROPERTY_RULES: Dict[str, List[Scoped]] = {
         _r("RESULT-UNCONDITIONAL", S_SPFS), _r("OPTIONAL-CHECKED", S_SPFS), _r("NONE-SENTINEL-TRUTH", S_SUBSEQ),
         _r("EVENT-TABLE"), _r("ROOT-ORDER-SOURCE"), _r("COST-GUARD", S_SPFS), _r("CANDIDATE-GUARDS", S_SPFS), _r("OUTPUT-FLAG", S_SPFS),
         _r("STALE-INPUT", S_SPFS), _r("MASK-RANGE"), _r("SEGMENT-MACHINE"), _r("BIT-ORDER"),
+        _r("ENUM-NO-TRUNCATION", S_SPFS),
     ],
     "C03": [
         _r("READONLY-DECODE", S_USPFS), _r("COSTKEYS", S_USPFS), _r("PRUNE", S_USPFS), _r("EVENT-SIG", S_USPFS),
@@ -76,6 +77,7 @@ PROPERTY_RULES: Dict[str, List[Scoped]] = {
         _r("RESULT-UNCONDITIONAL", S_USPFS), _r("ELEMENT-UPDATE", S_USPFS),
         _r("EVENT-TABLE"), _r("COST-GUARD", S_USPFS), _r("CANDIDATE-GUARDS", S_USPFS), _r("OUTPUT-FLAG", S_USPFS), _r("SET-ALGEBRA-ARGS"),
         _r("STALE-INPUT", S_USPFS), _r("GAIN-AT-LCA"), _r("TREE-ITER-EXPLICIT", S_USPFS + S_MODEL),
+        _r("ENUM-NO-TRUNCATION", S_USPFS),
     ],
     "C04": [
         _r("DECODE-GUARD"), _r("DECODE-COMPLETE"), _r("LEAF-ANCHOR"), _r("SENTINEL"), _r("READONLY-DECODE"),
@@ -140,6 +142,7 @@ PROPERTY_RULES: Dict[str, List[Scoped]] = {
         _r("CLASS-DOMAIN"), _r("MIRROR"),
         _r("EVENT-TABLE"), _r("DECODE-CONTENT-FLOW"), _r("COST-GUARD"), _r("CANDIDATE-GUARDS"),
         _r("READONLY-INPUT"),
+        _r("MASK-RANGE"), _r("ENUM-NO-TRUNCATION", S_COMPUTE),
     ],
     "C11": [
         _r("DICT-KEYS"), _r("FIELDS-SERIALISED"), _r("TREE-WRITE-ARGS"), _r("ENUM-DISJOINT"), _r("MAPPING-KEYING"),
